@@ -355,6 +355,17 @@ impl<LhsT: GemmInT, RhsT: GemmInT, OutT: GemmOutT> GemmExecutor<LhsT, RhsT, OutT
                 // Skip parallel iteration for batch size of 1
                 self.gemm_uninit(out_data, *a, *b, opts)
             }
+            (a, b) if out_mat_stride == 0 => {
+                // The output is empty. `par_chunks_mut` requires a non-zero
+                // chunk size, so handle this case separately. Each pair of
+                // inputs still needs to be validated.
+                for (a_mat, b_mat) in a.iter().zip(b) {
+                    self.gemm_uninit(&mut [], *a_mat, *b_mat, opts.clone())?;
+                }
+
+                // Safety: Output is empty and thus already initialized.
+                Ok(unsafe { out_data.assume_init() })
+            }
             (a, b) => {
                 a.par_iter()
                     .zip(b)
